@@ -44,8 +44,11 @@ Which hypothesis each theorem rests on, and where it is discharged:
   (`BTClibValueError`), never wrapped (`leaf_hash_refuses_out_of_byte`).
 * `Tree` is what a script tree IS; what reaches `tree_helper` at run time is any Python value (`PyVal`), and the guards
   that refuse everything that is no tree are `PyVal.toTree` (`tree_helper_answers_exactly_trees`,
-  `tree_helper_refusals`, `entry_points_on_python_values`).  A list in script position other than a command list
-  (`Err.codec`) is the script codec's to judge and is outside the model.
+  `tree_helper_refusals`, `entry_points_on_python_values`).  A list of script commands of ANY kind in script position is
+  `PyVal.script cs` and is judged by `serializeTap cs`, the mirror of `taproot.serialize` (Model/C12/Script.lean:
+  `leaf_script_of_every_command_kind`, `command_kinds_serialize`); str commands are ASCII, a list / tuple in command
+  position is not in `Cmd`.  (`PyVal.cmds n b` — a list of n str / bytes commands GIVEN with the octets `b` it serialises
+  to — is the older, abstract spelling, kept for the streams that compare leaves as octets.)
 -/
 namespace Props.C12
 open Btc Btc.Taproot Gen.Taproot
@@ -457,6 +460,101 @@ theorem leaf_hash_refuses_out_of_byte (H : TagHash) (v : Int) (s : Bytes) :
     (¬ (0 ≤ v ∧ v ≤ 255) → leafHashPub H v s = .error .version) ∧
     (∀ w : Nat, leafHashPub H ((w &&& LEAF_MASK : Nat) : Int) s = .ok (leafHash H (w &&& LEAF_MASK) s)) :=
   ⟨(leafHashPub_spec H v s).1, (leafHashPub_spec H v s).2, fun w => leafHashPub_masked H w s⟩
+
+/-- T5s (leaf scripts of EVERY command kind): a one-pair node whose script is a LIST of commands — ints, strs (op-code
+    names, OP_SUCCESSx, hex), bytes-like objects and anything else, mixed — is answered iff `taproot.serialize` answers
+    for the list (`serializeTap`, Model/C12/Script.lean), and then with the leaf of the serialised octets; the codec's
+    refusal is `tree_helper`'s: BTClibTypeError (`ctype`) for a command that is neither int, str nor bytes-like,
+    BTClibValueError (`cmd`) otherwise.  So `WellFormed` — the "iff" of T5 — counts exactly the command lists btclib
+    serialises. -/
+theorem leaf_script_of_every_command_kind (H : TagHash) (l l' : Bool) (v : Int) (cs : List Cmd) :
+    (∀ b, serializeTap cs = .ok b →
+      treeHelperPy H (.one l (.two l' (.int v) (.script cs))) = .ok (treeHelper H (.leaf (v % 256).toNat b))) ∧
+    (serializeTap cs = .error .type → treeHelperPy H (.one l (.two l' (.int v) (.script cs))) = .error .ctype) ∧
+    (∀ e, e ≠ .type → serializeTap cs = .error e →
+      treeHelperPy H (.one l (.two l' (.int v) (.script cs))) = .error .cmd) ∧
+    ((∃ t, WellFormed (.one l (.two l' (.int v) (.script cs))) t) ↔ ∃ b, serializeTap cs = .ok b) := by
+  have h0 : ¬ (0 > MAX_TREE_DEPTH) := by decide
+  refine ⟨?_, ?_, ?_, ?_⟩
+  · intro b hb
+    simp only [treeHelperPy, PyVal.toTree, PyVal.toTreeAt, h0, if_false, PyVal.toLeaf, PyVal.scriptBytes, hb]; rfl
+  · intro hb
+    simp only [treeHelperPy, PyVal.toTree, PyVal.toTreeAt, h0, if_false, PyVal.toLeaf, PyVal.scriptBytes, hb]; rfl
+  · intro e he hb
+    cases e
+    case type => exact absurd rfl he
+    all_goals (simp only [treeHelperPy, PyVal.toTree, PyVal.toTreeAt, h0, if_false, PyVal.toLeaf, PyVal.scriptBytes, hb]; rfl)
+  · constructor
+    · rintro ⟨t, ht⟩
+      cases ht with
+      | leaf _ _ _ _ b hs => cases hs with | script _ _ h => exact ⟨b, h⟩
+    · rintro ⟨b, hb⟩
+      exact ⟨_, .leaf l l' v _ b (.script cs b hb)⟩
+
+/-- T5c (what each command kind is serialised to): a bytes-like command is the MINIMAL PUSH OPERATOR for its length —
+    length byte below 76, OP_PUSHDATA1 / 2 / 4 with a 1 / 2 / 4-byte little-endian length below 2^8 / 2^16 / 2^32 (all
+    thresholds and op-code bytes regenerated from `_serialize_bytes_command`), refused from 2^32 on — never an op code for
+    the value; an int is the push of its CScriptNum encoding (the translated `encode_num`; 0 is the empty push), refused
+    outside int64; commands are serialised left to right and the first refusal is the answer; a command that is neither
+    int, str nor bytes-like is a TypeError wherever it is met first. -/
+theorem command_kinds_serialize (b : Bytes) (v : Int) (rest : List Cmd) :
+    (b.length < 76 → pushBytes b = .ok (leBytes 1 b.length ++ b)) ∧
+    (76 ≤ b.length → b.length < 256 → pushBytes b = .ok (0x4c :: leBytes 1 b.length ++ b)) ∧
+    (256 ≤ b.length → b.length < 65536 → pushBytes b = .ok (0x4d :: leBytes 2 b.length ++ b)) ∧
+    (65536 ≤ b.length → b.length < 4294967296 → pushBytes b = .ok (0x4e :: leBytes 4 b.length ++ b)) ∧
+    (4294967296 ≤ b.length → pushBytes b = .error .value) ∧
+    (¬ (MIN_SCRIPT_NUM ≤ v ∧ v ≤ MAX_SCRIPT_NUM) → intCmd v = .error .value) ∧
+    (∀ e, encode_num v = .ok e → intCmd v = pushBytes e) ∧
+    intCmd 0 = .ok [0] ∧
+    (∀ p, pushBytes b = .ok p → serializeTap (.bytes b :: rest) = (serializeTap rest).map (p ++ ·)) ∧
+    (∀ e, pushBytes b = .error e → serializeTap (.bytes b :: rest) = .error e) ∧
+    (∀ p, intCmd v = .ok p → serializeTap (.int v :: rest) = (serializeTap rest).map (p ++ ·)) ∧
+    (∀ e, intCmd v = .error e → serializeTap (.int v :: rest) = .error e) ∧
+    serializeTap (.other :: rest) = .error .type := by
+  have c1 : PUSH_DIRECT = 76 := rfl
+  have c2 : PUSH_1 = 256 := rfl
+  have c3 : PUSH_2 = 65536 := rfl
+  have c4 : PUSH_4 = 4294967296 := rfl
+  refine ⟨?_, ?_, ?_, ?_, ?_, ?_, ?_, by decide, ?_, ?_, ?_, ?_, rfl⟩
+  · intro h; simp only [pushBytes, c1, h, if_true]
+  · intro h1 h2
+    have : ¬ b.length < 76 := by omega
+    simp only [pushBytes, c1, c2, this, h2, if_true, if_false]; rfl
+  · intro h1 h2
+    have : ¬ b.length < 76 := by omega
+    have : ¬ b.length < 256 := by omega
+    simp only [pushBytes, c1, c2, c3, *, if_true, if_false]; rfl
+  · intro h1 h2
+    have : ¬ b.length < 76 := by omega
+    have : ¬ b.length < 256 := by omega
+    have : ¬ b.length < 65536 := by omega
+    simp only [pushBytes, c1, c2, c3, c4, *, if_true, if_false]; rfl
+  · intro h1
+    have : ¬ b.length < 76 := by omega
+    have : ¬ b.length < 256 := by omega
+    have : ¬ b.length < 65536 := by omega
+    have : ¬ b.length < 4294967296 := by omega
+    simp only [pushBytes, c1, c2, c3, c4, *, if_false]
+  · intro h
+    simp only [intCmd, encode_num, h, not_false_eq_true, if_true]; rfl
+  · intro e he; simp only [intCmd, he]
+  · intro p hp; simp only [serializeTap, hp]
+  · intro e he; simp only [serializeTap, he]
+  · intro p hp; simp only [serializeTap, hp]
+  · intro e he; simp only [serializeTap, he]
+
+-- "OP_1" is 0x51; " op_checksig\t" is stripped and upper-cased; "ab CD" is hex pushed as data; OP_SUCCESS80 ends the script
+-- with the next bytes command RAW; a lower-case "op_success80" serialises but does NOT end the script
+example : serializeTap [.str [79, 80, 95, 49], .bytes [1, 2], .str [32, 111, 112, 95, 99, 104, 101, 99, 107, 115, 105, 103, 9],
+    .str [97, 98, 32, 67, 68], .int 0] = .ok [0x51, 2, 1, 2, 0xac, 2, 0xab, 0xcd, 0] := by decide
+example : serializeTap [.str [79, 80, 95, 83, 85, 67, 67, 69, 83, 83, 56, 48], .bytes [7, 7]] = .ok [80, 7, 7] ∧
+    serializeTap [.str [79, 80, 95, 83, 85, 67, 67, 69, 83, 83, 56, 48]] = .error .value ∧
+    serializeTap [.str [79, 80, 95, 83, 85, 67, 67, 69, 83, 83, 56, 49], .bytes []] = .error .value ∧
+    serializeTap [.str [111, 112, 95, 115, 117, 99, 99, 101, 115, 115, 56, 48], .bytes [7]] = .ok [80, 1, 7] := by decide
+example : serializeTap [.str [97, 32, 98]] = .error .value ∧ serializeTap [.bytes [], .other, .str [120]] = .error .type ∧
+    serializeTap [.str [120], .other] = .error .value := by decide
+example : treeHelperPy (fun _ _ => []) (.one true (.two false (.int 0xC0) (.script [.int 0, .bytes [1, 2]]))) =
+    .ok ([((0xC0, [0, 2, 1, 2]), [])], []) := by decide
 
 -- non-vacuity -----------------------------------------------------------------------------------
 /-- a toy 32-byte "hash" (no collision resistance needed to exercise the definitions) -/
